@@ -5,7 +5,7 @@ PROPERTY = "C11"
 LEVEL = "proof"
 CONTRACT_MODULES = ["contracts.c11", "contracts.c03"]
 R = "batchie.retrospective."
-CARRIERS = ["batchie.data.Screen.combine", "batchie.core.RetrospectivePlateGenerator.generate_plates",
+CARRIERS = ["batchie.data.Screen.combine", "batchie.data.Screen.concat", "batchie.core.RetrospectivePlateGenerator.generate_plates",
             "batchie.core.RetrospectivePlateSmoother.smooth_plates", R + "PlatePermutationPlateGenerator._generate_plates",
             R + "create_random_holdout", R + "create_plate_balanced_holdout_set_among_masked_plates",
             "batchie.data.ScreenSubset.to_screen", "batchie.data.Screen.__init__"]
